@@ -28,7 +28,7 @@ ASSUMPTIONS = [
     'group-less members (exactly 1); the call must still return',
 ]
 REQUIRED_CELLS = {'quick': ['cls=UNIFAC', 'cls=Dortmund', 'cls=NIST', 'cls=Ideal', 'comp=vertex', 'comp=trace',
-                            'comp=zeros', 'comp=nearvertex', 'gl=1', 'varies:Dortmund', 'varies:NIST'],
+                            'comp=zeros', 'comp=nearvertex', 'gl=1', 'varies:Dortmund', 'varies:NIST', 'varies:UNIFAC'],
                   'thorough': []}
 
 POOL = ['Water', 'Ethanol', 'Methanol', 'Propanol', 'Acetone', 'Hexane', 'Benzene', 'Toluene', 'Pentane', 'Heptane',
